@@ -94,6 +94,9 @@ func (tr *BTarReader) RawBody() ([]byte, error) {
 	if err != nil {
 		return b, err
 	}
+	if tr.desc.Size > 0 && int64(len(b)) != tr.desc.Size {
+		return b, fmt.Errorf("%w [expected %d, received %d]", errs.ErrShortRead, tr.desc.Size, len(b))
+	}
 	if tr.digester != nil {
 		dig := tr.digester.Digest()
 		tr.digester = nil
